@@ -75,16 +75,29 @@ struct OrderCheck {
       if (k.eligible)
         el.push_back(c);
     }
+    // "equal within tolerance" is not transitive, so it cannot order a sort:
+    // sort by the exact keys, then cut the sequence only where every
+    // candidate before the cut ranks strictly (beyond tolerance) above every
+    // candidate after it
     std::stable_sort(el.begin(), el.end(), [&](Cg* a, Cg* b) {
-      return cmpKeys(keys[a->inc], keys[b->inc], inv.plugin) > 0;
+      const RankKey& x = keys[a->inc];
+      const RankKey& y = keys[b->inc];
+      if (x.pref != y.pref)
+        return x.pref > y.pref;
+      return std::lexicographical_compare(y.key.begin(), y.key.end(),
+                                          x.key.begin(), x.key.end());
     });
     std::vector<std::vector<Cg*>> out;
-    for (Cg* c : el) {
-      if (!out.empty() &&
-          cmpKeys(keys[out.back().back()->inc], keys[c->inc], inv.plugin) == 0)
-        out.back().push_back(c);
+    for (size_t i = 0; i < el.size(); i++) {
+      bool cut = i > 0;
+      for (size_t a = 0; a < i && cut; a++)
+        for (size_t b = i; b < el.size() && cut; b++)
+          if (cmpKeys(keys[el[a]->inc], keys[el[b]->inc], inv.plugin) <= 0)
+            cut = false;
+      if (cut || out.empty())
+        out.push_back({el[i]});
       else
-        out.push_back({c});
+        out.back().push_back(el[i]);
     }
     return out;
   }
